@@ -4,7 +4,7 @@
    by evaluation of the whole finite table inside the kernel).  Model theorems are about Model/Transport.v
    (proofs in Proofs/TransportProofs.v), which the correspondence stage ties to the running code.
 
-   Table coordinates: sv = the endpoint is a server; ph = phase 0..12 on a server, 0..18 on a client (K0 pre-kexinit, K1 kex-running,
+   Table coordinates: sv = the endpoint is a server; ph = phase 0..14 on a server, 0..20 on a client (K0 pre-kexinit, K1 kex-running,
    K2 own NEWKEYS sent / peer's awaited, E0 post-newkeys-pre-service, A0 auth-running, A1 auth-done,
    C0 authenticated, R0 rekey-running, R1 rekey-newkeys-sent; from a second session with several methods:
    M0 keyboard-interactive attempt running, M1 server: it failed / client: answer sent, M2 server: publickey
@@ -47,7 +47,7 @@ Theorem C06_stale_attempt : forall sv ph sk va t, 0 <= ph < Z.of_nat (nphases sv
 Proof. exact fact_stale. Qed.
 Print Assumptions C06_stale_attempt.
 
-(* Client, between two authentication methods (phases 13..18: the previous method was refused, or the client itself
+(* Client, between two authentication methods (phases 15..20: the previous method was refused, or the client itself
    skipped it - prompt cancelled after the request had gone out, nothing to offer, password change not supported -
    and the next method's credential callback is still pending): a USERAUTH_SUCCESS ends the connection, strict or
    not, well-formed or damaged. *)
@@ -55,6 +55,16 @@ Theorem C06_between_methods : forall sv ph sk va t, 0 <= ph < Z.of_nat (nphases 
   between_phase sv ph = true -> t = 52 -> lookup gate_row sv ph sk va t = VF.
 Proof. exact fact_between. Qed.
 Print Assumptions C06_between_methods.
+
+(* first_kex_packet_follows, on real endpoints (phases 13 G1 / 14 G2: the peer's KEXINIT announced a guessed
+   packet).  Wrong guess: the packet of type 30..49 that follows is ignored - no reaction, session identical to an
+   untampered one without any guess - for every such type, every body variant, strict KEX or not.  Right guess:
+   every entry equals the entry of phase K1, so the message the exchange calls for is processed as usual. *)
+Theorem C06_guess_table : forall sv ph sk va t, 0 <= ph < Z.of_nat (nphases sv) -> 0 <= va < 4 -> 0 <= t < 256 ->
+  (ph = 13 -> 30 <= t <= 49 -> lookup gate_row sv ph sk va t = VI) /\
+  (ph = 14 -> lookup gate_row sv ph sk va t = lookup gate_row sv 1 sk va t).
+Proof. exact fact_guess. Qed.
+Print Assumptions C06_guess_table.
 
 (* A message only the other role may send (to a client: SERVICE_REQUEST, KEX init, USERAUTH_REQUEST,
    INFO_RESPONSE; to a server: SERVICE_ACCEPT, KEX reply, USERAUTH_FAILURE/SUCCESS/BANNER, type 60) is never
@@ -85,9 +95,10 @@ Proof. exact fact_postauth. Qed.
 Print Assumptions C06_postauth.
 
 (* Message numbers with no meaning are answered UNIMPLEMENTED or end the connection; never handled, never
-   silently swallowed. *)
+   silently swallowed.  (Phase 13 = G1 is left out: there the session only goes on if the probe is the kex-range
+   packet that gets ignored, so an UNIMPLEMENTED answer is followed by a stalled exchange.) *)
 Theorem C06_unassigned : forall sv ph sk va t, 0 <= ph < Z.of_nat (nphases sv) -> 0 <= va < 4 -> 0 <= t < 256 ->
-  unassigned t = true ->
+  unassigned t = true -> ph <> 13 ->
   lookup gate_row sv ph sk va t = VU \/ lookup gate_row sv ph sk va t = VF \/ lookup gate_row sv ph sk va t = VL.
 Proof. exact fact_unassigned. Qed.
 Print Assumptions C06_unassigned.
@@ -114,13 +125,28 @@ Theorem C06_gate_preauth : forall c seq t cls,
 Proof. exact (gate_preauth_fatal true true). Qed.
 Print Assumptions C06_gate_preauth.
 
-(* In EVERY state a message only the other role may send ends the connection. *)
+(* In EVERY state (with no wrongly guessed kex packet pending: that one is ignored unseen, see C06_guess) a message
+   only the other role may send ends the connection. *)
 Theorem C06_role_model : forall c seq t cls,
+  ignore_first c = false ->
   (srv c = false /\ (t = 5 \/ t = 30 \/ t = 50)) \/
   (srv c = true /\ (t = 6 \/ t = 31 \/ t = 51 \/ t = 52 \/ t = 53)) ->
   closed (dispatch c seq t cls) = true.
 Proof. exact (role_foreign_fatal true true). Qed.
 Print Assumptions C06_role_model.
+
+(* first_kex_packet_follows: in EVERY state in which a key exchange runs, the packet (type 30..49) that follows a
+   wrongly guessed KEXINIT is ignored - not parsed, nothing sent, connection up, only the flag is lowered - exactly
+   once and whatever strict KEX says; with no wrong guess pending (none was made, or the peer guessed right) the
+   packet goes to the exchange handler.  A KEXINIT that is accepted arms the flag exactly for a wrong guess. *)
+Theorem C06_guess :
+  (forall c seq t cls, kex c = true -> 30 <= t <= 49 ->
+     (ignore_first c = true -> dispatch c seq t cls = set_ignore_first false c) /\
+     (ignore_first c = false -> dispatch c seq t cls = on_kexmsg c seq t cls)) /\
+  (forall c seq cls, closed (on_kexinit_g true c seq cls) = false ->
+     ignore_first (on_kexinit_g true c seq cls) = (2 <=? cls)).
+Proof. split; [exact (guessed_packet_ignored_once true true) | exact (kexinit_arms_guess true)]. Qed.
+Print Assumptions C06_guess.
 
 (* In EVERY state in which the peer's NEWKEYS is still awaited (first exchange or a re-exchange) a KEXINIT ends
    the connection. *)
